@@ -196,10 +196,14 @@ func TestVerif_C14_Linearizable(t *testing.T) {
 			}
 		}
 		sched := verifx.NewSched(env.rec)
+		// in a third of the cases a client also parks when a storage operation has come back: what the backend does
+		// with a value it has just read (e.g. caching the engine configuration) becomes a step of its own
+		sched.AfterOps = rapid.IntRange(0, 2).Draw(rt, "parkAfterOperations") == 0
 		defer func() {
 			// rapid may abort the property from inside a draw: never leave a task parked
 			sched.RunToEnd(20 * time.Second)
 			env.rec.Gate = nil
+			env.rec.GateAfter = nil
 			env.rec.TaskOf = nil
 		}()
 		for c := range clients {
